@@ -360,6 +360,43 @@ inductive GReachableV (onlyFirst : Bool) (P : Params) : GState → Prop where
 
 def genabled (P : Params) (g : GState) : List Tid := (threads g.core).filter fun t => (gstep P g t).isSome
 
+/-! #### regression variant: `exit` without the gate's mutex
+
+In `gstep` the capacity test and going to sleep are ONE step, because `enter` holds the gate's mutex from the test to
+`cond.Wait` (which enqueues the waiter before it releases the mutex) and `exit` takes the same mutex. If `exit` stops
+taking the mutex (seeded change: atomic capacity, `Add(1)`; `Signal()` without `Lock`), a release can fall between the
+test and the `Wait`: `ustep` splits the sleep into "has seen the gate full" (`deciding`) and "waits", with every other
+step as in `gstep`. A `Signal` only reaches threads that already wait. -/
+
+structure UState where
+  g        : GState
+  deciding : Label → Bool      -- found `capacity == 0`, has not yet called `cond.Wait`
+
+def uinit (P : Params) : UState := { g := ginit P, deciding := fun _ => false }
+
+def ustep (P : Params) (u : UState) : Tid → Option UState
+  | .main => (gstep P u.g .main).map fun g' => { u with g := g' }
+  | .tgt l =>
+    match u.g.core.pc l with
+    | some p =>
+      if p.atGate && !u.g.asleep l && u.deciding l then
+        -- `g.cond.Wait()`: only now does the thread join the waiters
+        some { g := { u.g with asleep := upd u.g.asleep l true, gateQ := u.g.gateQ ++ [l] }, deciding := upd u.deciding l false }
+      else if p.atGate && !u.g.asleep l && u.g.core.capacity = 0 then
+        some { u with deciding := upd u.deciding l true }
+      else (gstep P u.g (.tgt l)).map fun g' => { u with g := g' }
+    | none => none
+
+def urunSched (P : Params) : UState → List Tid → Option UState
+  | u, [] => some u
+  | u, t :: ts => match ustep P u t with
+    | some u' => urunSched P u' ts
+    | none => none
+
+inductive UReachable (P : Params) : UState → Prop where
+  | init : UReachable P (uinit P)
+  | step {u u' : UState} (t : Tid) : UReachable P u → ustep P u t = some u' → UReachable P u'
+
 /-! ### the status wait at the level of `cond.Wait` / `cond.Broadcast`
 
 `step` lets a dependent pass `t.wait()` whenever the dependency is not running. The code is finer: a waiter that finds
